@@ -2,6 +2,7 @@ package props
 
 import (
 	"fmt"
+	"sort"
 	"strings"
 
 	"github.com/go-python/gpython/py"
@@ -42,20 +43,25 @@ const (
 	iNonlocal
 	iDel
 	iChild
+	iLocals // log the one-letter names locals() shows (statement scopes only)
+	iRecall // call again a function defined earlier in an enclosing scope
 )
 
 type sitem struct {
-	k     ikind
-	name  string
-	id    int
-	child *sscope
-	later bool // child function: called at the end of the enclosing scope instead of right away
+	k      ikind
+	name   string
+	id     int
+	child  *sscope
+	later  bool    // child function: called at the end of the enclosing scope instead of right away
+	nocall bool    // child function: only called through iRecall items
+	ref    *sscope // iRecall: the function to call
 }
 
 type sscope struct {
 	kind    sckind
 	id      int
 	param   string // "" or the name of its single parameter
+	pkind   int    // how param is declared and passed (c03Params)
 	defUse  string // "" or a name used as the default value of an extra parameter `p`
 	dupParm bool   // def f(x, x): duplicate parameter
 	items   []*sitem
@@ -63,6 +69,25 @@ type sscope struct {
 	// resolver output
 	res map[string]string // name -> local | free | global | classlocal | classderef
 }
+
+// c03Params: the ways the one interesting parameter can be declared. %s is its name in
+// decl, the argument value in call, and val is the value the parameter then holds.
+var c03Params = []struct{ decl, call, val string }{
+	{"%s", "%[1]s", "%s"},
+	{"*, %s", "%[2]s=%[1]s", "%s"},
+	{"a0, *r0, %s, **k0", "0, %[2]s=%[1]s", "%s"},
+	{"*%s", "%[1]s", "(%s)"},
+	{"**%s", "q=%[1]s", "{'q':%s}"},
+	{"a0, *r0, k0, **%s", "0, k0=0, q=%[1]s", "{'q':%s}"},
+	{"a0, *%s, k0", "0, %[1]s, k0=0", "(%s)"},
+	{"a0, *, k0=0, **%s", "0, q=%[1]s", "{'q':%s}"},
+}
+
+func (s *sscope) paramDecl() string { return fmt.Sprintf(c03Params[s.pkind].decl, s.param) }
+func (s *sscope) paramCall(v string) string {
+	return fmt.Sprintf(c03Params[s.pkind].call, v, s.param)
+}
+func (s *sscope) paramVal(v string) string { return fmt.Sprintf(c03Params[s.pkind].val, v) }
 
 // ---------- rendering ----------
 
@@ -107,7 +132,7 @@ func (r *c03r) exprScope(s *sscope) string {
 	switch s.kind {
 	case scLambda:
 		if s.param != "" {
-			return fmt.Sprintf("(lambda %s: %s)(%d)", s.param, r.exprBody(s), 1000+s.id)
+			return fmt.Sprintf("(lambda %s: %s)(%s)", s.paramDecl(), r.exprBody(s), s.paramCall(itoa(1000+s.id)))
 		}
 		return fmt.Sprintf("(lambda: %s)()", r.exprBody(s))
 	case scListComp:
@@ -139,6 +164,11 @@ func (r *c03r) body(ind int, s *sscope) {
 			r.line(ind+1, "del "+it.name)
 			r.line(ind, "except NameError:")
 			r.line(ind+1, fmt.Sprintf("vh.log((%d, 'delunbound'))", it.id))
+		case iLocals:
+			it.id = r.id()
+			r.line(ind, fmt.Sprintf("vh.log((%d, sorted([k for k in locals() if len(k) == 1])))", it.id))
+		case iRecall:
+			r.line(ind, fmt.Sprintf("f%d()", it.ref.id))
 		case iChild:
 			c := it.child
 			switch c.kind {
@@ -146,7 +176,7 @@ func (r *c03r) body(ind int, s *sscope) {
 				c.id = r.id()
 				var ps []string
 				if c.param != "" {
-					ps = append(ps, c.param)
+					ps = append(ps, c.paramDecl())
 					if c.dupParm {
 						ps = append(ps, c.param)
 					}
@@ -166,7 +196,8 @@ func (r *c03r) body(ind int, s *sscope) {
 					r.line(ind+1, "pass")
 					r.body(ind+1, c)
 				}
-				if it.later {
+				if it.nocall {
+				} else if it.later {
 					later = append(later, it)
 				} else {
 					r.call(ind, c)
@@ -198,7 +229,7 @@ func (r *c03r) call(ind int, c *sscope) {
 	fn := fmt.Sprintf("f%d", c.id)
 	arg := ""
 	if c.param != "" {
-		arg = itoa(1000 + c.id)
+		arg = c.paramCall(itoa(1000 + c.id))
 	}
 	if c.defUse != "" {
 		r.line(ind, "if "+fn+":")
@@ -433,6 +464,102 @@ func (in *c03interp) target(f *c03frame, name string) *cellv {
 	}
 }
 
+// c03Owner: the function scope whose variable a reference to name in scope s denotes
+// (nil: a global or class-local name, never a cell).
+func c03Owner(s *sscope, name string) *sscope {
+	info := c03Collect(s)
+	switch {
+	case s.kind == scModule, info.global[name]:
+		return nil
+	case info.nonlocal[name]:
+	case info.bound[name]:
+		if s.kind.funcLike() {
+			return s
+		}
+		return nil // class-local
+	}
+	for p := s.parent; p != nil; p = p.parent {
+		if !p.kind.funcLike() {
+			continue
+		}
+		pi := c03Collect(p)
+		if pi.global[name] {
+			return nil
+		}
+		if pi.nonlocal[name] {
+			continue
+		}
+		if pi.bound[name] {
+			return p
+		}
+	}
+	return nil
+}
+
+// c03Free: the free variables of function scope s: every name referenced in s or in a scope
+// nested in it that denotes a variable of a function enclosing s.
+func c03Free(s *sscope) map[string]bool {
+	anc := map[*sscope]bool{}
+	for p := s.parent; p != nil; p = p.parent {
+		anc[p] = true
+	}
+	out := map[string]bool{}
+	var walk func(d *sscope)
+	walk = func(d *sscope) {
+		info := c03Collect(d)
+		for _, set := range []map[string]bool{info.bound, info.used, info.nonlocal} {
+			for n := range set {
+				if o := c03Owner(d, n); o != nil && anc[o] {
+					out[n] = true
+				}
+			}
+		}
+		for _, it := range d.items {
+			if it.k == iChild {
+				walk(it.child)
+			}
+		}
+	}
+	walk(s)
+	return out
+}
+
+// localsOf: the one-letter names locals() shows in frame f, sorted: the namespace of a module
+// or class body; the bound local and cell variables of a function plus its bound free variables.
+func (in *c03interp) localsOf(f *c03frame) []string {
+	set := map[string]bool{}
+	add := func(m map[string]*cellv) {
+		for n, c := range m {
+			if c != nil && c.bound && len(n) == 1 {
+				set[n] = true
+			}
+		}
+	}
+	switch {
+	case f.scope.kind == scModule:
+		add(in.globals)
+	case f.scope.kind == scClass:
+		add(f.vars)
+	default:
+		for n, c := range f.vars {
+			if c != nil && c.bound && len(n) == 1 && !f.info.global[n] && !f.info.nonlocal[n] {
+				set[n] = true
+			}
+		}
+		for n := range c03Free(f.scope) {
+			if c, ok := f.enclosingCell(n); ok && c.bound {
+				set[n] = true
+			}
+		}
+	}
+	var out []string
+	for n := range set {
+		out = append(out, "'"+n+"'")
+	}
+	sort.Strings(out)
+	return out
+}
+
 func (in *c03interp) newFrame(s *sscope, parent *c03frame) *c03frame {
 	return &c03frame{scope: s, info: c03Collect(s), vars: map[string]*cellv{}, parent: parent, in: in}
 }
@@ -468,6 +595,15 @@ func (in *c03interp) run(f *c03frame) error {
 			} else {
 				c.bound = false
 			}
+		case iLocals:
+			in.log = append(in.log, fmt.Sprintf("(%d,[%s])", it.id, strings.Join(in.localsOf(f), ",")))
+		case iRecall:
+			for p := f; p != nil; p = p.parent {
+				if p.scope == it.ref.parent {
+					in.callDef(it.ref, p)
+					break
+				}
+			}
 		case iChild:
 			c := it.child
 			switch c.kind {
@@ -486,7 +622,8 @@ func (in *c03interp) run(f *c03frame) error {
 				if !defOK {
 					continue
 				}
-				if it.later {
+				if it.nocall {
+				} else if it.later {
 					later = append(later, it)
 					laterFrames[it] = true
 				} else {
@@ -519,7 +656,7 @@ func (in *c03interp) run(f *c03frame) error {
 func (in *c03interp) callDef(c *sscope, defFrame *c03frame) {
 	cf := in.newFrame(c, defFrame)
 	if c.param != "" {
-		cf.vars[c.param] = &cellv{val: itoa(1000 + c.id), bound: true}
+		cf.vars[c.param] = &cellv{val: c.paramVal(itoa(1000 + c.id)), bound: true}
 	}
 	if c.defUse != "" {
 		cf.vars["p"] = &cellv{val: c.res["def"], bound: true}
@@ -531,7 +668,7 @@ func (in *c03interp) callDef(c *sscope, defFrame *c03frame) {
 func (in *c03interp) evalExprScope(c *sscope, parent *c03frame) error {
 	cf := in.newFrame(c, parent)
 	if c.kind == scLambda && c.param != "" {
-		cf.vars[c.param] = &cellv{val: itoa(1000 + c.id), bound: true}
+		cf.vars[c.param] = &cellv{val: c.paramVal(itoa(1000 + c.id)), bound: true}
 	}
 	return in.run(cf)
 }
@@ -570,6 +707,9 @@ func (g *c03gen) item(kind sckind, depth, budget int, k func(it *sitem, used int
 			k(&sitem{k: iNonlocal, name: n}, 1)
 		}
 	}
+	if !kind.exprOnly() {
+		k(&sitem{k: iLocals}, 1)
+	}
 	if depth >= g.maxDepth || budget < 2 {
 		return
 	}
@@ -581,6 +721,7 @@ func (g *c03gen) item(kind sckind, depth, budget int, k func(it *sitem, used int
 		type variant struct {
 			param, defUse string
 			dup, later    bool
+			pkind         int
 		}
 		vs := []variant{{}}
 		switch ck {
@@ -588,9 +729,15 @@ func (g *c03gen) item(kind sckind, depth, budget int, k func(it *sitem, used int
 			vs = append(vs, variant{later: true})
 			for _, n := range g.names[:1] {
 				vs = append(vs, variant{param: n}, variant{defUse: n}, variant{param: n, later: true}, variant{param: n, dup: true})
+				for pk := 1; pk < len(c03Params); pk++ {
+					if g.rc.Quick() && pk != 1 && pk != 5 {
+						continue // every declaration form is in the "params" family
+					}
+					vs = append(vs, variant{param: n, pkind: pk})
+				}
 			}
 		case scLambda:
-			vs = append(vs, variant{param: g.names[0]})
+			vs = append(vs, variant{param: g.names[0]}, variant{param: g.names[0], pkind: 1}, variant{param: g.names[0], pkind: 5})
 		}
 		for _, v := range vs {
 			v := v
@@ -599,7 +746,7 @@ func (g *c03gen) item(kind sckind, depth, budget int, k func(it *sitem, used int
 				if u == 0 && !v.dup {
 					return // an empty child tells nothing
 				}
-				c := &sscope{kind: ck, param: v.param, defUse: v.defUse, dupParm: v.dup, items: items}
+				c := &sscope{kind: ck, param: v.param, pkind: v.pkind, defUse: v.defUse, dupParm: v.dup, items: items}
 				k(&sitem{k: iChild, child: c, later: v.later}, u+1)
 			})
 		}
@@ -735,17 +882,118 @@ func c03Siblings(quick bool, visit func(mod *sscope, size int)) {
 }
 
 func cloneScope(s *sscope, parent *sscope) *sscope {
+	m := map[*sscope]*sscope{}
+	c := cloneScope1(s, parent, m)
+	var fix func(d *sscope)
+	fix = func(d *sscope) {
+		for _, it := range d.items {
+			if it.ref != nil {
+				it.ref = m[it.ref]
+			}
+			if it.child != nil {
+				fix(it.child)
+			}
+		}
+	}
+	fix(c)
+	return c
+}
+
+func cloneScope1(s *sscope, parent *sscope, m map[*sscope]*sscope) *sscope {
 	c := *s
+	m[s] = &c
 	c.parent = parent
 	c.items = nil
 	for _, it := range s.items {
 		ci := *it
 		if it.child != nil {
-			ci.child = cloneScope(it.child, &c)
+			ci.child = cloneScope1(it.child, &c, m)
 		}
 		c.items = append(c.items, &ci)
 	}
 	return &c
+}
+
+// c03ParamForms: a function whose parameter x is declared in each of the forms of c03Params
+// (positional, keyword-only after a bare * or after *args, *x, **x with other parameters
+// before it) and captured by each kind of nested scope, read-only or rebound through nonlocal.
+func c03ParamForms(visit func(mod *sscope, size int)) {
+	use := func() *sitem { return &sitem{k: iUse, name: "x"} }
+	for pk := range c03Params {
+		for _, later := range []bool{false, true} {
+			inners := []*sscope{
+				{kind: scDef, items: []*sitem{use()}},
+				{kind: scDef, items: []*sitem{{k: iNonlocal, name: "x"}, use(), {k: iBind, name: "x"}, use()}},
+				{kind: scDef, items: []*sitem{{k: iChild, child: &sscope{kind: scLambda, items: []*sitem{use()}}}}},
+				{kind: scLambda, items: []*sitem{use()}},
+				{kind: scClass, items: []*sitem{use(), {k: iChild, child: &sscope{kind: scDef, items: []*sitem{use()}}}}},
+				{kind: scListComp, items: []*sitem{use()}},
+				{kind: scGenExp, items: []*sitem{use()}},
+				nil, // not captured at all
+			}
+			for _, inner := range inners {
+				outer := &sscope{kind: scDef, param: "x", pkind: pk}
+				outer.items = append(outer.items, use())
+				if inner != nil {
+					outer.items = append(outer.items, &sitem{k: iChild, child: inner})
+				}
+				outer.items = append(outer.items, use(), &sitem{k: iLocals})
+				mod := &sscope{kind: scModule, items: []*sitem{{k: iBind, name: "x"}, {k: iChild, child: outer, later: later}, use()}}
+				visit(mod, 8)
+			}
+		}
+	}
+}
+
+// c03Snapshots: a scope nested in a function reads a variable x of that function, takes a
+// locals() snapshot, has x rebound or deleted behind its back (by calling a sibling closure
+// that declares x nonlocal) and reads x again: every sequence of at most 4 such steps, in a
+// class body and in a function body. A snapshot must never become the binding.
+func c03Snapshots(quick bool, visit func(mod *sscope, size int)) {
+	type step struct {
+		k    ikind
+		what int // iRecall: 0 rebind, 1 delete
+	}
+	alphabet := []step{{iUse, 0}, {iLocals, 0}, {iRecall, 0}, {iRecall, 1}, {iBind, 0}, {iDel, 0}}
+	maxLen := 4
+	if quick {
+		maxLen = 3
+	}
+	var seqs [][]step
+	var gen func(cur []step)
+	gen = func(cur []step) {
+		if len(cur) > 0 {
+			seqs = append(seqs, append([]step{}, cur...))
+		}
+		if len(cur) == maxLen {
+			return
+		}
+		for _, st := range alphabet {
+			gen(append(cur, st))
+		}
+	}
+	gen(nil)
+	for _, mk := range []sckind{scClass, scDef} {
+		for _, sq := range seqs {
+			rebind := &sscope{kind: scDef, items: []*sitem{{k: iNonlocal, name: "x"}, {k: iBind, name: "x"}}}
+			unbind := &sscope{kind: scDef, items: []*sitem{{k: iNonlocal, name: "x"}, {k: iDel, name: "x"}}}
+			mid := &sscope{kind: mk}
+			for _, st := range sq {
+				it := &sitem{k: st.k, name: "x"}
+				if st.k == iRecall {
+					it.ref = rebind
+					if st.what == 1 {
+						it.ref = unbind
+					}
+				}
+				mid.items = append(mid.items, it)
+			}
+			outer := &sscope{kind: scDef, items: []*sitem{{k: iBind, name: "x"}, {k: iChild, child: rebind, nocall: true}, {k: iChild, child: unbind, nocall: true},
+				{k: iChild, child: mid}, {k: iUse, name: "x"}, {k: iLocals}}}
+			mod := &sscope{kind: scModule, items: []*sitem{{k: iBind, name: "x"}, {k: iChild, child: outer}, {k: iUse, name: "x"}}}
+			visit(mod, 9+len(sq))
+		}
+	}
 }
 
 func countScopes(s *sscope) int {
@@ -792,6 +1040,26 @@ func c03Run(rc *core.RunCtx) {
 			return
 		}
 		c03One(c, cloneScope(mod, nil), size, 98)
+	})
+	rc.Part = "params"
+	c03ParamForms(func(mod *sscope, size int) {
+		if rc.Expired() || rc.Done() {
+			return
+		}
+		if !rc.Take() {
+			return
+		}
+		c03One(c, cloneScope(mod, nil), size, 96)
+	})
+	rc.Part = "snapshots"
+	c03Snapshots(rc.Quick(), func(mod *sscope, size int) {
+		if rc.Expired() || rc.Done() {
+			return
+		}
+		if !rc.Take() {
+			return
+		}
+		c03One(c, cloneScope(mod, nil), size, 97)
 	})
 	seen := 0
 	for pi, pl := range plans {
